@@ -415,7 +415,8 @@ class CompositeFrontend(ConstrainedFrontend):
         if self.satisfiable(extra_constraints=extra_constraints):
             return ()
 
-        cores = []
+        # a concretely false constraint is held by no child
+        cores = [c for c in self.constraints if not c.symbolic and c.is_false()] if self._unsat else []
 
         for solver in self._solver_list:
             cores.extend(list(solver.unsat_core(extra_constraints=extra_constraints)))
